@@ -233,6 +233,15 @@ func (p *Prog) lockWrappers() map[string]wrapperSum {
 									w[k] = wrapperSum{Field: "", Class: shortPath(fi.Pkg.PkgPath) + "." + v.Name(), Mode: mode, Acq: acq, Try: try, Global: shortPath(fi.Pkg.PkgPath) + "." + v.Name()}
 								}
 							}
+							// ... or a mutex field of the package's one state object: global.snapshotM.Lock()
+							if in, ok := ast.Unparen(sel.X).(*ast.SelectorExpr); ok {
+								if id, ok := ast.Unparen(in.X).(*ast.Ident); ok {
+									if v, ok := info.Uses[id].(*types.Var); ok && v.Parent() == fi.Pkg.Types.Scope() {
+										g := shortPath(fi.Pkg.PkgPath) + "." + v.Name() + "." + in.Sel.Name
+										w[k] = wrapperSum{Field: "", Class: g, Mode: mode, Acq: acq, Try: try, Global: g}
+									}
+								}
+							}
 						}
 					}
 				}
